@@ -392,7 +392,7 @@ func ristrettoAdapter() *adapter {
 	ad.mk = func(a *big.Int) pt {
 		e := g.NewElement()
 		if err := e.UnmarshalBinary(curves.Ristretto255Encode(ref.MulG(a))); err != nil {
-			panic(fmt.Sprintf("SELFTEST-FAIL ristretto255: cannot decode reference encoding: %v", err))
+			panic(fmt.Sprintf("SELFTEST-FAIL group.ristretto255: circl misbehaved outside C13 (decoding, C09): Element.UnmarshalBinary refused the RFC 9496 encoding of %s·G made by the reference: %v", a.Text(16), err))
 		}
 		return e
 	}
